@@ -18,6 +18,8 @@ type Ctx struct {
 	secondPass, collectOnly bool
 	cfgOverride             *bounds.Config
 	thoroughOK              map[string]bool
+	// functions in which possibly-wrapping narrow arithmetic is reported (rule BOUNDS.WRAP)
+	wrapScope map[string]bool
 }
 
 var Registry = map[string]func(*Ctx){}
